@@ -248,8 +248,9 @@ def getB (vals : List (String × Val)) (p : String) : Bytes :=
   | some (.b v) => v
   | _ => []
 
-/-- `_parse_attributes`: TLVs walked by their raw length (no alignment), stop at length 0,
-    needs more than 4 octets left; returns the XFRMA_TMPL attribute's fields if present (last one wins) -/
+/-- `_parse_attributes`: TLVs walked by their length — padded to a multiple of four when the source does so
+    (`Gen.Layouts.attrAligned`, read from the statement that advances) —, stop at length 0, needs more than 4 octets left;
+    returns the XFRMA_TMPL attribute's fields if present (last one wins) -/
 def parseNlAttrs : Nat → Bytes → Option (List (String × Val)) → Option (List (String × Val))
   | 0, _, acc => acc
   | fuel + 1, data, acc =>
@@ -259,7 +260,7 @@ def parseNlAttrs : Nat → Bytes → Option (List (String × Val)) → Option (L
       if length = 0 then acc
       else
         let acc := if ty = constOf "XFRMA_TMPL" then some (parseStruct "XfrmUserTmpl" ((data.take length).drop 4)) else acc
-        parseNlAttrs fuel (data.drop length) acc
+        parseNlAttrs fuel (data.drop (if Gen.Layouts.attrAligned then (length + 3) / 4 * 4 else length)) acc
     else acc
 
 /-- the fields the controller reads from an ACQUIRE / EXPIRE event -/
